@@ -1491,3 +1491,10 @@ pub fn thread_dump() -> String {
     let g = ENGINE.lock();
     g.as_ref().map(|i| i.thread_dump()).unwrap_or_default()
 }
+
+/// true if nothing but the scripted events moves the clock in this run: no stall faults and
+/// no per-step tick, so lateness oracles are exact
+pub fn quiet() -> bool {
+    let g = ENGINE.lock();
+    g.as_ref().map(|i| i.cfg.stall_budget == 0 && i.cfg.tick_ns == 0).unwrap_or(false)
+}
